@@ -10,7 +10,7 @@ def main(tier):
     chk = Check('C16', LEVEL, tier)
     for q in c16.FUNCS:
         chk.function_under_contract(q)
-    res = run_programs('contracts.c16', c16.programs(tier), timeout_ms=60000 if tier == 'quick' else 240000)
+    res = run_programs('contracts.c16', c16.programs(tier), timeout_ms=60000 if tier == 'quick' else 1200000)
     absorb(chk, res, c16.replay, prefix='C16/')
     # the underscore class is a recorded finding: give its violations one stable key
     for v in chk.violations:
@@ -27,11 +27,11 @@ def main(tier):
               'the float()/int() acceptance DFAs of pyvc/values.py (differentially tested against CPython; every counterexample is replayed natively)',
               'z3; cvc5 for z3 unknowns')
     chk.assume('safety, blank-field and Python-accepted clauses are proved for every string of length <= 20',
-               'Fortran-meaning and garbage clauses are proved for every string of length <= 6 (quick) / <= 8 (thorough); '
-               'lengths 9..20 are bounded (lattice + random), the solver times out on the value obligations there')
+               'Fortran-meaning and garbage clauses are proved for every string of length <= 6 (quick) / <= 9 for reals and <= 13 for integers (thorough); '
+               'longer fields up to 20 are bounded (lattice + random), the solver times out on the value obligations there')
     chk.explanation = (
         'clause -> evidence: never raises, blank field <=> blank value, Python-accepted text gives Python\'s result: PROVED for all '
         'printable strings of length <= 20 from the real source. Fortran meaning (D/E, dropped letter, blanks ignored) and garbage=>nan/None: '
-        'PROVED for all strings up to length 6 (quick) / 8 (thorough) against an independent specification automaton; BOUNDED for widths up to 20 '
+        'PROVED for all strings up to length 6 (quick) / 9 reals, 13 integers (thorough) against an independent specification automaton; BOUNDED for widths up to 20 '
         'on the rendering lattice. Known finding: a field containing an underscore between digits that needs Fortran canonicalisation is read as a number.')
     return chk.finish()
